@@ -19,9 +19,11 @@
 EXTENDS Integers, Sequences, FiniteSets
 
 S(op, g, to) == [op |-> op, g |-> g, to |-> to]
-QN == << S("setLayout", "f", "v_parallel"), S("density", "", ""), S("getModes", "", ""),
-         S("setLayout", "rho", "mode_solve"), S("setLayout", "phi", "mode_solve"), S("solve", "", ""),
-         S("setLayout", "phi", "v_parallel_2d"), S("setLayout", "rho", "v_parallel_2d"), S("findPotential", "", "") >>
+\* the operands of the quasi-neutrality statements are part of the statement: density of f into rho, modes of rho, solve for phi
+\* from rho, inverse transform of phi
+QN == << S("setLayout", "f", "v_parallel"), S("density", "rho", "f"), S("getModes", "rho", ""),
+         S("setLayout", "rho", "mode_solve"), S("setLayout", "phi", "mode_solve"), S("solve", "phi", "rho"),
+         S("setLayout", "phi", "v_parallel_2d"), S("setLayout", "rho", "v_parallel_2d"), S("findPotential", "phi", "") >>
 \* fullSimulation.py:177-191 (before the loop) and :226-270 (one iteration); diagnostics and output left out
 Prologue == QN
 Strang ==
